@@ -78,6 +78,7 @@ func Referenced(n *gen.Node) []string {
 
 // Graph is a root plus named types (nil body = referenced but not added).
 type Graph struct {
+	witnessBudget int
 	Root  *gen.Node
 	Types map[string]*gen.Node
 	Opt   bool // keys optional by default
@@ -265,12 +266,21 @@ func (g *Graph) AllInhabited() bool {
 // Witness builds a smallest-rank inhabitant of a position (nil if none).
 func (g *Graph) Witness(n *gen.Node) *gen.JV {
 	inh, rank := g.Inhabited()
+	g.witnessBudget = 20000
 	return g.witness(n, inh, rank, 0)
 }
 
 func (g *Graph) witness(n *gen.Node, inh map[string]bool, rank map[string]int, depth int) *gen.JV {
-	if depth > 200 {
+	// the construction is bounded (depth and total nodes): with several
+	// references per object it would otherwise grow exponentially; no witness
+	// simply means that the caller asserts nothing about one
+	g.witnessBudget--
+	if depth > 60 || g.witnessBudget < 0 {
 		return nil
+	}
+	// a nullable position has the smallest inhabitant there is
+	if g.NullableTerminates && n.HasTrue("nullable") {
+		return gen.JNull()
 	}
 	best := func(names []string) *gen.JV {
 		bestName, bestRank := "", 1<<30
